@@ -305,6 +305,7 @@ func init() {
 			{Name: "reuse", TShards: 4, Run: func(c *Ctx) { alignReuse(c, alignOpts{validity: true}, 0) }},
 			{Name: "readers", Race: true, QShards: 2, TShards: 4, Run: c08Readers},
 			{Name: "large", QShards: 2, TShards: 8, Run: func(c *Ctx) { alignLarge(c, alignOpts{validity: true}, c08Gen) }},
+			{Name: "parallel", Race: true, Run: alignParallel},
 		},
 	})
 	register(&Property{
